@@ -25,7 +25,15 @@ An abstract dataflow system over the *specifications* of the components (each pr
   checkpoint (C13), cursors := checkpointed cursors (C16), every key's state := the checkpointed state of the
   key's old owner, handed to the key's new owner (C06: restore = union filtered by ownership), all channels,
   the pending checkpoint and (if the job process itself died, `job = true`) the publications in progress
-  are discarded.
+  are discarded. `restart` describes a deployment onto **fresh worker processes** (every node of the new
+  assembly starts from the pristine state of a new process);
+* `redeployLive n'` is the code as it is when the new assembly contains a node process that is still alive
+  (a survivor of a partial failure, a transient loss of heartbeats, a retried deployment): the node is deployed
+  again, but `SourceRunner.HandleDeploy` neither stops the previous deployment's event loop and output goroutine
+  nor discards `outputStream` / the key-event fetcher / the operator's pending batch, so data in flight survives
+  the redeploy and reaches the restored state (finding D39). The model keeps the channels; the real behaviour is
+  at least this bad (two goroutines then drain one output stream, so records and barriers also overtake each
+  other). The property theorems exclude this action (`…_partial`), `Props/C01.lean` has the counterexample.
 
 Ghost state: `log o k` is the list of `(split, index)` operator `o` has applied to key `k` (restored together
 with the state). Acknowledgements are synchronous calls in the code (`createCheckpoint`,
@@ -97,6 +105,7 @@ inductive Act where
   | publish (i : Nat)
   | kill (w : Nat)
   | restart (n : Nat) (job : Bool)
+  | redeployLive (n : Nat)
 deriving DecidableEq, Repr, Inhabited
 
 /-- what the property talks about: the state handed to a handler invocation -/
@@ -212,6 +221,8 @@ def step {σ : Type} (cfg : Cfg σ) (s : State σ) : Act → Option (State σ ×
   | .kill w => some ({ s with dead := w :: s.dead }, [])
   | .restart n' job =>
     if 0 < n' then some (restore cfg s (newest s.published) n' job, []) else none
+  | .redeployLive n' =>
+    if 0 < n' then some ({ restore cfg s (newest s.published) n' false with queue := s.queue }, []) else none
 
 /-- run an action list; `none` as soon as an action is not enabled -/
 def runFrom {σ : Type} (cfg : Cfg σ) (s : State σ) : List Act → Option (State σ × List (Given σ))
@@ -278,6 +289,12 @@ def Quiescent {σ : Type} (s : State σ) : Prop := ∀ r o e, Item.ev e ∉ s.qu
 def Act.isFailure : Act → Bool
   | .kill _ => true
   | .restart _ _ => true
+  | .redeployLive _ => true
+  | _ => false
+
+/-- deployments that reuse a live node process (finding D39) -/
+def Act.isLiveRedeploy : Act → Bool
+  | .redeployLive _ => true
   | _ => false
 
 end Rxn.Pipeline
